@@ -128,6 +128,15 @@ func recC13(c *ctx) {
 					emit(vt.Ev{"op": "rekey", "t": id, "label": vt.B(label), "data": vt.B(w)})
 				} else {
 					rnd := r.Bytes(32)
+					// a Finalize whose entropy source fails (at once, or after fewer than 32 bytes) returns an error and
+					// must leave the builder as it was: the retry below has to give the same generator as if it were the first
+					if r.Intn(2) == 0 {
+						_, e1 := rb.Finalize(failReader{})
+						_, e2 := rb.Finalize(bytes.NewReader(r.Bytes(1 + r.Intn(31))))
+						if e1 == nil || e2 == nil {
+							emit(vt.Ev{"op": "finalizefail", "t": id, "err1": e1 != nil, "err2": e2 != nil}) // rejected by the specification
+						}
+					}
 					rng, err := rb.Finalize(r.Entropy(rnd))
 					if err != nil {
 						panic(err)
@@ -135,6 +144,12 @@ func recC13(c *ctx) {
 					objs[id-1] = rng
 					kinds[id-1] = "rng"
 					emit(vt.Ev{"op": "finalize", "t": id, "rnd": vt.B(rnd)})
+					// read at once, so that whatever led to this generator is observed even if the history ends here
+					first := make([]byte, 16)
+					if _, err := rng.Read(first); err != nil {
+						panic(err)
+					}
+					emit(vt.Ev{"op": "read", "t": id, "out": vt.B(first)})
 				}
 			case "rng":
 				rng := objs[id-1].(rdr)
